@@ -51,6 +51,24 @@ CHECKS = {
         text="Every font the in-process lane writes (all 13 formats, .ttf/.otf, coloured .notdef at any input position, shared-shape SVG documents, bitmap runs with gid gaps) is fully loaded, re-saved and reloaded with table-by-table XML equality, and its raw bytes are parsed by validators written from the spec for COLR v0/v1 record order and references, SVG document index order/disjointness/ids/hrefs/cross-glyph references, CBLC/CBDT runs and offsets, sbix, and cmap/hmtx/loca|CFF/maxp/post agreement incl. the post-format rule. maximum_color outputs go through the same validator in C12.",
         design="3/C07",
     ),
+    "C10": dict(
+        level="exploration",
+        technique="runtime monitoring: writer->reader round-trip oracles on the real serialisers over generated values (config TOML under flag/file/default combinations, glyph-map CSV, file names, glyph names + feaLib compile, parts JSON, response files); contracts H5/H6/H8 run the same oracles inside every build",
+        text="Generated FontConfig values (every field, hostile strings, 1-3 axes/masters) are written with config.write and loaded back with config.load under every flag/file/default combination with expected = flag, else file, else default; glyph mappings, file names, codepoint sequences, glyph names (injective, accepted by feaLib), reusable-parts files from the real part-file code and ninja-style response files go through their real writer/reader pairs. Held-on-observed; two third-party/format limitations are recorded as findings (F16 toml string escaping, F7 CSV leading space).",
+        design="3/C10",
+    ),
+    "C15": dict(
+        level="exploration",
+        technique="runtime monitoring: spec-predicate oracle on uniq_sort_cpal_colors, exhaustive over the small universe of the statement (82160 sets x 3 orders) + CPAL/COLR read-back of generated fonts; contract H4 on every palette built anywhere",
+        text="Function part is enumerated completely for <= 6 colours over 3 RGBA values x index in {None,0..5} (exhaustive for that universe), each set in three input orders, against a predicate coded from the statement; font part builds COLRv0/v1 fonts whose fills and stops use indexed / unindexed / currentColor colours with opacities and reads CPAL entries, palette indices and alphas back from the binary.",
+        design="3/C15",
+    ),
+    "C16": dict(
+        level="exploration",
+        technique="runtime monitoring: compile/decompile round-trip oracle with a field-quantum error model on paint.transformed, gradient-parameter invariance on apply_transform, recomposition of the uniform/residual split, spec matrices vs Paint.from_ot(...).gettransform(); contracts H1/H7 inside every build",
+        text="Boundary-targeted affines and gradients are pushed through the real encoder functions, compiled into a real COLR table with fontTools and decompiled; the decompiled paints must compose to the requested affine within what half a quantum of each F2Dot14/Fixed field explains (integer fields must be exact), out-of-range values must end in a wider encoding or an exception, gradient colour parameters must be preserved, and nanoemoji's gettransform of every static transform paint must equal the spec matrix.",
+        design="3/C16",
+    ),
 }
 
 NOT_YET = {}
